@@ -216,11 +216,418 @@ func ruleRunCompression(c *core.Ctx, rule string) {
 	})
 	c.Check(rule, cmapPkg+".(*File).SetMapping/runs", "a CID run continues only while both the last code byte and the CID increase by exactly one from the previous entry", func(o *core.Ob) {
 		fn := c.Prog.Func(cmapPkg, "(*File).SetMapping")
-		src := c.Prog.Src(fn.Decl.Body)
-		o.At(fn.Site(fn.Decl, ""))
-		o.Shape(strings.Contains(src, "ifi==len(info)||info[i].x!=info[i-1].x+1||data[info[i].code]!=data[info[i-1].code]+1{"), "the run-break condition must compare code byte and CID of every adjacent pair")
-		o.Shape(strings.Contains(src, "Value:data[info[start].code],"), "a range/single must carry the value of its first code")
+		checkRunSteps(c, o, fn)
 	})
+}
+
+// stepAtom describes a fact "E(k+a) == E(k+a-1) + 1" about adjacent entries:
+// the index variable, the expression with the index replaced by a marker,
+// and the type of the compared values.
+type stepAtom struct {
+	k    types.Object
+	ctx  string
+	typ  types.Type
+	step int64 // the difference that is asserted (1 for a run)
+}
+
+// adjacentStep interprets an atom that holds as A == B+1 (also B+1 == A,
+// A-1 == B, A-B == 1) where B is A with one index k+a replaced by k+a-1.
+func adjacentStep(info *types.Info, a core.Atom, render func(ast.Expr) string) *stepAtom {
+	cmp, ok := a.AsCmp()
+	if !ok || cmp.Op != token.EQL {
+		return nil
+	}
+	type pairT struct {
+		later, earlier ast.Expr
+		step           int64
+	}
+	plusC := func(e ast.Expr) (ast.Expr, int64) {
+		be, isBin := ast.Unparen(e).(*ast.BinaryExpr)
+		if !isBin || (be.Op != token.ADD && be.Op != token.SUB) {
+			return nil, 0
+		}
+		if k, isK := core.IntConst(info, be.Y); isK {
+			if be.Op == token.SUB {
+				k = -k
+			}
+			return be.X, k
+		}
+		if k, isK := core.IntConst(info, be.X); isK && be.Op == token.ADD {
+			return be.Y, k
+		}
+		return nil, 0
+	}
+	var pairs []pairT
+	// L == R'+c: L is c later than R'
+	if b, c := plusC(cmp.R); b != nil && c != 0 {
+		pairs = append(pairs, pairT{cmp.L, b, c})
+	}
+	if b, c := plusC(cmp.L); b != nil && c != 0 {
+		pairs = append(pairs, pairT{cmp.R, b, c})
+	}
+	// L - R == c
+	for _, side := range [][2]ast.Expr{{cmp.L, cmp.R}, {cmp.R, cmp.L}} {
+		if k, isK := core.IntConst(info, side[1]); isK && k != 0 {
+			if be, isBin := ast.Unparen(side[0]).(*ast.BinaryExpr); isBin && be.Op == token.SUB {
+				pairs = append(pairs, pairT{be.X, be.Y, k})
+			}
+		}
+	}
+	for _, p := range pairs {
+		later, earlier, step := p.later, p.earlier, p.step
+		if _, isConst := core.IntConst(info, later); isConst {
+			continue
+		}
+		for turn := 0; turn < 2; turn++ {
+			var k types.Object
+			n := 0
+			if ctx, ok := shiftedBy(info, later, earlier, &k, &n, render); ok && k != nil && n == 1 {
+				return &stepAtom{k: k, ctx: ctx, typ: info.TypeOf(later), step: step}
+			}
+			// E(k-1) == E(k) - c
+			later, earlier, step = earlier, later, -step
+		}
+	}
+	return nil
+}
+
+// indexTerm splits an index expression into variable and constant offset (k, k+1, k-1).
+func indexTerm(info *types.Info, e ast.Expr) (types.Object, int64, bool) {
+	e = ast.Unparen(e)
+	if id, ok := e.(*ast.Ident); ok {
+		if v, isVar := info.ObjectOf(id).(*types.Var); isVar {
+			return v, 0, true
+		}
+		return nil, 0, false
+	}
+	be, ok := e.(*ast.BinaryExpr)
+	if !ok || (be.Op != token.ADD && be.Op != token.SUB) {
+		return nil, 0, false
+	}
+	id, isID := ast.Unparen(be.X).(*ast.Ident)
+	c, isK := core.IntConst(info, be.Y)
+	if !isID || !isK {
+		return nil, 0, false
+	}
+	v, isVar := info.ObjectOf(id).(*types.Var)
+	if !isVar {
+		return nil, 0, false
+	}
+	if be.Op == token.SUB {
+		c = -c
+	}
+	return v, c, true
+}
+
+// shiftedBy compares two expressions structurally.  They may differ in
+// index positions only, where a holds k+m and b holds k+m-1 for one and the
+// same variable k; diffs counts such positions.  The result is the text of a
+// with every such index replaced by a marker.
+func shiftedBy(info *types.Info, a, b ast.Expr, k *types.Object, diffs *int, render func(ast.Expr) string) (string, bool) {
+	a, b = ast.Unparen(a), ast.Unparen(b)
+	switch x := a.(type) {
+	case *ast.IndexExpr:
+		y, ok := b.(*ast.IndexExpr)
+		if !ok {
+			return "", false
+		}
+		base, ok := shiftedBy(info, x.X, y.X, k, diffs, render)
+		if !ok {
+			return "", false
+		}
+		if core.SameExpr(info, x.Index, y.Index) {
+			inner, ok := shiftedBy(info, x.Index, y.Index, k, diffs, render)
+			if !ok {
+				return "", false
+			}
+			return base + "[" + inner + "]", true
+		}
+		ka, ca, oka := indexTerm(info, x.Index)
+		kb, cb, okb := indexTerm(info, y.Index)
+		if oka && okb && ka == kb && ca-cb == 1 && (*k == nil || *k == ka) {
+			*k = ka
+			*diffs++
+			return base + "[\u00a7]", true
+		}
+		// the index itself contains the shifted position: data[info[i].code]
+		inner, ok := shiftedBy(info, x.Index, y.Index, k, diffs, render)
+		if !ok {
+			return "", false
+		}
+		return base + "[" + inner + "]", true
+	case *ast.SelectorExpr:
+		y, ok := b.(*ast.SelectorExpr)
+		if !ok || x.Sel.Name != y.Sel.Name {
+			return "", false
+		}
+		base, ok := shiftedBy(info, x.X, y.X, k, diffs, render)
+		return base + "." + x.Sel.Name, ok
+	case *ast.CallExpr:
+		y, ok := b.(*ast.CallExpr)
+		if !ok || len(x.Args) != len(y.Args) || !core.SameExpr(info, x.Fun, y.Fun) {
+			return "", false
+		}
+		out := core.ExprStr(x.Fun) + "("
+		for i := range x.Args {
+			s, ok := shiftedBy(info, x.Args[i], y.Args[i], k, diffs, render)
+			if !ok {
+				return "", false
+			}
+			if i > 0 {
+				out += ","
+			}
+			out += s
+		}
+		return out + ")", true
+	}
+	if core.SameExpr(info, a, b) {
+		if render != nil {
+			return render(a), true
+		}
+		return strings.ReplaceAll(core.ExprStr(a), " ", ""), true
+	}
+	return "", false
+}
+
+// checkRunSteps: a run of entries is extended only over adjacent pairs whose
+// last code byte AND whose value both increase by exactly one, and what is
+// emitted for a run carries the value of the run's first entry.
+func checkRunSteps(c *core.Ctx, o *core.Ob, fn *core.Func) {
+	g := fn.Graph()
+	info := fn.Info()
+	isByte := func(t types.Type) bool {
+		b, ok := t.Underlying().(*types.Basic)
+		return ok && b.Kind() == types.Uint8
+	}
+	var xs, vs []core.EdgeRef
+	var k types.Object
+	vctx := ""
+	consistent := true
+	sawX, sawV := false, false
+	// the comparisons as written, whatever the branches make of them
+	for _, bv := range g.BranchVertices() {
+		if bv.Cond.Expr == nil {
+			continue
+		}
+		bv := bv
+		ast.Inspect(bv.Cond.Expr, func(n ast.Node) bool {
+			be, ok := n.(*ast.BinaryExpr)
+			if !ok || (be.Op != token.EQL && be.Op != token.NEQ) {
+				return true
+			}
+			st := adjacentStep(info, core.Atom{Expr: be, Neg: be.Op == token.NEQ}, func(e ast.Expr) string { return resolveText(g, bv, e, 4) })
+			if st == nil {
+				return true
+			}
+			if k != nil && k != st.k {
+				consistent = false
+			}
+			k = st.k
+			if st.step != 1 {
+				o.FailAt(fn.Site(be, ""), "adjacent entries are required to differ by %d: a range maps consecutive codes to consecutive values, the step must be exactly one", st.step)
+			}
+			if isByte(st.typ) {
+				sawX = true
+			} else {
+				sawV = true
+				if vctx != "" && vctx != st.ctx {
+					consistent = false
+				}
+				vctx = st.ctx
+			}
+			return true
+		})
+	}
+	for _, bv := range g.BranchVertices() {
+		for _, l := range []core.EdgeLabel{core.EdgeTrue, core.EdgeFalse} {
+			for _, a := range bv.Implied(l) {
+				st := adjacentStep(info, a, func(e ast.Expr) string { return resolveText(g, bv, e, 4) })
+				if st == nil || st.step != 1 {
+					continue
+				}
+				if k != nil && k != st.k {
+					consistent = false
+				}
+				k = st.k
+				if isByte(st.typ) {
+					xs = append(xs, core.EdgeRef{From: bv, Label: l})
+					o.At(fn.Site(bv.Cond.Expr, "adjacent code bytes differ by one"))
+				} else {
+					vs = append(vs, core.EdgeRef{From: bv, Label: l})
+					o.At(fn.Site(bv.Cond.Expr, "adjacent values differ by one"))
+					if vctx != "" && vctx != st.ctx {
+						consistent = false
+					}
+					vctx = st.ctx
+				}
+			}
+		}
+	}
+	if !sawX && !sawV {
+		o.Unrec("no comparison of adjacent entries of the form E(k) == E(k-1)+1 was found: how runs are delimited is not decided")
+		return
+	}
+	if !consistent {
+		o.Unrec("adjacent entries are compared through more than one index variable or value expression")
+		return
+	}
+	// the positions where the pair index advances
+	var incs []*core.V
+	for _, v := range g.Vs {
+		switch st := v.AST.(type) {
+		case *ast.IncDecStmt:
+			if st.Tok == token.INC && core.ObjOf(info, st.X) == k {
+				incs = append(incs, v)
+			}
+		case *ast.AssignStmt:
+			if len(st.Lhs) == 1 && len(st.Rhs) == 1 && core.ObjOf(info, st.Lhs[0]) == k {
+				if st.Tok == token.ADD_ASSIGN {
+					if c1, isK := core.IntConst(info, st.Rhs[0]); isK && c1 == 1 {
+						incs = append(incs, v)
+					}
+				} else if kk, c1, ok := indexTerm(info, st.Rhs[0]); ok && kk == k && c1 == 1 {
+					incs = append(incs, v)
+				}
+			}
+		}
+	}
+	if len(incs) == 0 {
+		o.Unrec("the index %s of the adjacent-pair comparison is not advanced by one in a form that is followed", k.Name())
+		return
+	}
+	// what is emitted: the Value of every Range and Single literal
+	type emitted struct {
+		lit *ast.CompositeLit
+		v   *core.V
+		val ast.Expr
+	}
+	var ems []emitted
+	for _, v := range g.Vs {
+		if v.AST == nil {
+			continue
+		}
+		ast.Inspect(v.AST, func(n ast.Node) bool {
+			if _, isLit := n.(*ast.FuncLit); isLit {
+				return false
+			}
+			cl, ok := n.(*ast.CompositeLit)
+			if !ok {
+				return true
+			}
+			if t := info.TypeOf(cl); t != nil && (core.IsNamed(t, "pdf/font/cmap", "Range") || core.IsNamed(t, "pdf/font/cmap", "Single")) {
+				ems = append(ems, emitted{cl, v, literalField(info, cl, "Value")})
+			}
+			return true
+		})
+	}
+	if len(ems) == 0 {
+		o.Unrec("no Range or Single literal found: what is emitted for a run is not decided")
+		return
+	}
+	// a run ends where its first position is moved up to the pair index: S = k
+	var start types.Object
+	var resets []*core.V
+	for _, v := range g.Vs {
+		as, ok := v.AST.(*ast.AssignStmt)
+		if !ok || len(as.Lhs) != len(as.Rhs) || as.Tok != token.ASSIGN {
+			continue
+		}
+		for i, l := range as.Lhs {
+			obj := core.ObjOf(info, l)
+			if obj == nil || obj == k {
+				continue
+			}
+			if kk, c0, ok := indexTerm(info, as.Rhs[i]); ok && kk == k && c0 == 0 {
+				if start != nil && start != obj {
+					o.Unrec("more than one variable is set to the pair index %s (%s, %s): which one holds a run's first position is not decided", k.Name(), start.Name(), obj.Name())
+					return
+				}
+				start = obj
+				resets = append(resets, v)
+				o.At(fn.Site(as, "a new run starts"))
+			}
+		}
+	}
+	if start == nil {
+		o.Unrec("no assignment S = %s (start of a new run) found", k.Name())
+		return
+	}
+	// what is emitted carries the value of the run's first entry: V(S)
+	if vctx != "" {
+		pat := regexp.MustCompile("^" + strings.ReplaceAll(regexp.QuoteMeta(vctx), "\u00a7", `(\w+(?:[-+]\d+)?)`) + "$")
+		for _, e := range ems {
+			o.At(fn.Site(e.lit, "emitted for a run"))
+			if e.val == nil {
+				o.FailAt(fn.Site(e.lit, ""), "a range or single is emitted without a value")
+				continue
+			}
+			got := resolveText(g, e.v, e.val, 4)
+			m := pat.FindStringSubmatch(got)
+			if m == nil {
+				o.Unrec("%s: the value %s of what is emitted is not the value of one entry (%s)", c.Prog.Pos(e.lit.Pos()), got, vctx)
+				return
+			}
+			if m[1] != start.Name() {
+				o.FailAt(fn.Site(e.lit, ""), "what is emitted for a run carries the value at position %s; it must carry the value of the run's first code (position %s)", m[1], start.Name())
+			}
+		}
+	}
+	valType := types.Type(nil)
+	if len(ems) > 0 && ems[0].val != nil {
+		valType = info.TypeOf(ems[0].val)
+	}
+	otherCmp := func(byteKind bool) bool {
+		// a comparison of entry values (or code bytes) at the pair index in a form that is not a step
+		for _, bv := range g.BranchVertices() {
+			if bv.Cond.Expr == nil {
+				continue
+			}
+			found := false
+			ast.Inspect(bv.Cond.Expr, func(n ast.Node) bool {
+				be, ok := n.(*ast.BinaryExpr)
+				if !ok {
+					return true
+				}
+				switch be.Op {
+				case token.EQL, token.NEQ, token.LSS, token.GTR, token.LEQ, token.GEQ:
+				default:
+					return true
+				}
+				if adjacentStep(info, core.Atom{Expr: be}, nil) != nil || adjacentStep(info, core.Atom{Expr: be, Neg: true}, nil) != nil {
+					return true
+				}
+				t := info.TypeOf(be.X)
+				if t == nil || !core.Mentions(info, be, k) {
+					return true
+				}
+				if byteKind && isByte(t) || !byteKind && valType != nil && types.Identical(t, valType) {
+					found = true
+				}
+				return true
+			})
+			if found {
+				return true
+			}
+		}
+		return false
+	}
+	for _, q := range incs {
+		o.Count(1)
+		if g.ReachFrom(q, false, core.AvoidEdges(xs...).With(resets...))[q] {
+			if len(xs) == 0 && otherCmp(true) {
+				o.Unrec("the last code bytes of adjacent entries are compared in a form that is not followed")
+				return
+			}
+			o.FailAt(fn.Site(q.AST, ""), "a run can be extended from one entry to the next without the test that the last code byte increases by exactly one: codes that are not consecutive would be written as one range")
+		}
+		if g.ReachFrom(q, false, core.AvoidEdges(vs...).With(resets...))[q] {
+			if len(vs) == 0 && otherCmp(false) {
+				o.Unrec("the values of adjacent entries are compared in a form that is not followed")
+				return
+			}
+			o.FailAt(fn.Site(q.AST, ""), "a run can be extended from one entry to the next without the test that the value increases by exactly one: a range maps consecutive codes to consecutive values, the codes after the first would get wrong values")
+		}
+	}
 }
 
 func ruleCMapStreamKeys(c *core.Ctx) {
